@@ -401,9 +401,9 @@ def main(tier, seed, replay, jobs, scale):
         import json
         cases = [tuple(json.load(open(replay))["replay"]["case"])]
     else:
-        nl = int((50 if tier == "quick" else 500) * scale)
-        npc = int((150 if tier == "quick" else 3000) * scale)
-        nsel = int((60 if tier == "quick" else 1000) * scale)
+        nl = int((100 if tier == "quick" else 500) * scale)
+        npc = int((450 if tier == "quick" else 3000) * scale)
+        nsel = int((240 if tier == "quick" else 1000) * scale)
         cases = [("lib", seed, i, tier) for i in range(nl)] + [("proc", seed, i, tier) for i in range(npc)] + [("sel", seed, i, tier) for i in range(nsel)]
     results = list(par.run_cases(dispatch, cases, jobs))
     par.absorb(run, results)
